@@ -56,6 +56,16 @@ def generate(run, n, depth, maxc=6, nodes="{1,2,3}", vals="{0,1,2}", incs="= {1,
         raise vlib.Infra("TLC produced no behaviours")
     return out
 
+def generate_bulk(run, n, depth, maxc=6, tag="bulk"):
+    """Behaviours in which a fresh node merges whole histories at once (MerkleCRDT_gen BulkSpec)."""
+    out = os.path.join(run.tmp, "beh-%s.ndjson" % tag)
+    text = cfg(maxc=maxc, incs="= {1,2}", body="ACTION_CONSTRAINT Export").replace("SPECIFICATION Spec", "SPECIFICATION BulkSpec")
+    run.tlc("MerkleCRDT_gen.tla", "gen_%s.cfg" % tag, mode="simulate", workers=1, sim="num=%d" % n, extra=["-depth", str(depth)],
+            timeout=600, env={"VERIF_OUT": out}, cfg_text=text, label="GEN_merge_" + tag)
+    if not os.path.exists(out):
+        raise vlib.Infra("TLC produced no bulk behaviours")
+    return out
+
 def directed(run, maxc=4, tag="dir", **kw):
     """Transitions of the bounded graph at which the pinned walk (or D1's null tie) first deviates."""
     out = os.path.join(run.tmp, "beh-%s.ndjson" % tag)
@@ -81,7 +91,8 @@ def check(run, replay, prop):
         n = 400 if thorough else 120
         files = [directed(run, maxc=4, tag="dirctr", regs="{}", vals="{}"),
                  directed(run, maxc=3, tag="dirreg", ctrs="{}", incs="= {}", vals="{0,1}"),
-                 generate(run, n, 14, tag="a"), generate(run, n // 2, 10, maxc=5, nodes="{1,2}", incs="<- IncsPN", tag="pn")]
+                 generate(run, n, 14, tag="a"), generate(run, n // 2, 10, maxc=5, nodes="{1,2}", incs="<- IncsPN", tag="pn"),
+                 generate_bulk(run, n // 2, 16)]
         if os.path.isdir(STORED):
             files += sorted(os.path.join(STORED, f) for f in os.listdir(STORED))
         variants = [("plain", "")]
@@ -118,6 +129,21 @@ def check(run, replay, prop):
             if not samples:
                 import vshow
                 samples = vshow.sample(f, 2)
+    if not replay and prop in ("C04", "C02"):
+        # long diverged histories: heights beyond the one-byte range of their encoding, evaluated with the spec's graph rules
+        out = os.path.join(run.tmp, "res-deep.json")
+        deep = "200:400,250:300" + (",127:130,300:16500" if thorough else "")
+        try:
+            run.run_driver(binary, ["-beh", files[0], "-max", "1", "-out", out, "-seed", str(run.seed), "-nodes", "2", "-deep", deep], timeout=3000)
+            r = json.load(open(out))["result"]
+            for k in tot:
+                tot[k] += r.get(k, 0) or 0
+            herrs += r.get("harness_errors") or []
+            for v in r.get("violations") or []:
+                v["variant"] = "deep"; v["source"] = "deep:" + deep
+                viol.append(v)
+        except vlib.Crash as c:
+            viol.append({"property": "C01", "kind": "node-panic", "variant": "deep", "source": "deep", "msg": "a DefraDB goroutine panicked in a deep history (%s)\n%s" % (c.head, c.stack[:1500])})
     if herrs:
         raise vlib.Infra("replay driver could not run %d behaviours, first: %s" % (len(herrs), herrs[0]))
     if tot["behaviours"] == 0:
